@@ -1,6 +1,6 @@
 (* Dispatch.v — name -> model runner / spec checker, for the extracted driver *)
 From Coq Require Import String List Ascii ZArith Bool.
-From QH Require Import Bytes Value Range Spec_C16 HeaderMap Parser SocketM SockIO Spec_C01 SockSpec Router SrvIO RouterSpec Copier Spec_C14 Base64 BasicAuth Spec_C09 LocalAuth Spec_C17 SlotHandler Spec_C15 FsModel Spec_C0708 Proxy Spec_C1213 Lifecycle Spec_C10 Spec_C20.
+From QH Require Import Bytes Value Range Spec_C16 HeaderMap Parser SocketM SockIO Spec_C01 SockSpec Router SrvIO RouterSpec Copier Spec_C14 Base64 BasicAuth Spec_C09 LocalAuth Spec_C17 SlotHandler Spec_C15 FsModel Spec_C0708 Proxy Spec_C1213 Lifecycle Spec_C10 Spec_C20 Spec_C11.
 Import ListNotations.
 
 Definition run (fam : bytes) (c : value) : value :=
@@ -38,6 +38,7 @@ Definition chk (prop fam : bytes) (c o : value) : bool :=
   else if beq prop (B "C12") then (if beq fam (B "proxy") then chk_C12 c o else true)
   else if beq prop (B "C13") then (if beq fam (B "proxy") then chk_C13 c o else true)
   else if beq prop (B "C10") then (if beq fam (B "lifed") then chk_C10_lifed c o else if beq fam (B "life") then chk_C10_life c o else true)
+  else if beq prop (B "C11") then chk_C11 c o
   else if beq prop (B "C20") then (if beq fam (B "tls") then chk_C20 c o else true)
   else if beq prop (B "C15") then (if beq fam (B "slot") then chk_C15 c o else true)
   else if beq prop (B "C17") then chk_C17 fam c o
